@@ -1,10 +1,28 @@
 // lt/le/gt/ge - eq/ne inlined in dispatch
 
 use super::VM;
-use super::Value;
+use super::{GcRef, ObjectKind, Value};
 use aelys_common::error::{RuntimeError, RuntimeErrorKind};
 
 impl VM {
+    /// The `==` of the language (what Eq/Ne compute): `Value` equality, and equal contents
+    /// for two heap strings.
+    pub fn values_equal(&self, lhs: Value, rhs: Value) -> bool {
+        if lhs == rhs {
+            return true;
+        }
+        let (Some(lp), Some(rp)) = (lhs.as_ptr(), rhs.as_ptr()) else {
+            return false;
+        };
+        match (self.heap.get(GcRef::new(lp)), self.heap.get(GcRef::new(rp))) {
+            (Some(lo), Some(ro)) => match (&lo.kind, &ro.kind) {
+                (ObjectKind::String(ls), ObjectKind::String(rs)) => ls == rs,
+                _ => false,
+            },
+            _ => false,
+        }
+    }
+
     /// Less than comparison.
     pub fn compare_lt(&self, left: Value, right: Value) -> Result<bool, RuntimeError> {
         // Fast path: both integers
